@@ -422,7 +422,7 @@ func chainChild() {
 			wg.Wait()
 			br.Caps = append(toCaps(s4.Take()), toCaps(s6.Take())...)
 			if sniff != nil {
-				br.Frames = sniff.collect(2 * time.Millisecond)
+				br.Frames = sniff.collectQuiet(3*time.Millisecond, 100*time.Millisecond)
 			}
 			rr := ReqRes{I: i, Burst: br, Trace: rec.take()}
 			nnsMu.Lock()
